@@ -23,9 +23,6 @@ EXCEPTIONS = {
     ('amgcl::mpi::coarsening::pmis::tentative_prolongation', 'src'): 'same as dst',
     ('amgcl::coarsening::tentative_prolongation', 'P'): 'rows order[j] of one aggregate; aggregates are disjoint and each is handled by one iteration of the omp for',
 }
-for _f in ('amgcl::preconditioner::schur_pressure_correction::init', 'amgcl::mpi::schur_pressure_correction::init'):
-    for _v in ('Kpp', 'Kpu', 'Kup', 'Kuu', 'Kpp_loc', 'Kpp_rem', 'Kpu_loc', 'Kpu_rem', 'Kup_loc', 'Kup_rem', 'Kuu_loc', 'Kuu_rem'):
-        EXCEPTIONS[(_f, _v)] = _SCHUR
 WRITE_OPS = ('=', '+=', '-=', '*=', '/=', '|=', '&=', '^=', '%=')
 NONMUTATING = ('begin', 'end', 'size', 'data', 'get', 'operator->', 'operator*', 'operator[]', 'at', 'front', 'back', 'stride', 'empty', 'rows', 'cols', 'col', 'value',
                'count', 'find', 'cbegin', 'cend', 'n_rows', 'n_cols')
